@@ -110,7 +110,8 @@ BinOps == ArithOps \cup RelOps \cup LogicOps \cup {"mod"}
 \* static result type of a binary operator (numeric operands)
 ResType(op, ta, tb) ==
   CASE op \in {"+", "-", "*"} -> Wider(ta, tb)
-    [] op = "/" -> LET w == Wider(ta, tb) IN IF w = "I" THEN "S" ELSE IF w = "L" THEN "D" ELSE w
+    \* a division is never a whole-number type; a LONG or DOUBLE operand makes it a DOUBLE
+    [] op = "/" -> IF ta \in {"L", "D"} \/ tb \in {"L", "D"} THEN "D" ELSE "S"
     [] OTHER -> "I"
 
 Bool(b) == Val("I", IF b THEN -1 ELSE 0)
